@@ -14,6 +14,7 @@ modes
   top        (function '-') insert at the very start of the file
   prefunc    insert on a new line before the first line of the function
              definition (its return-type line); anchor ignored
+  begin      insert right after the opening brace line of the function body
   before     insert as new line(s) before the anchor line
   after      insert as new line(s) after the anchor line
   eol        append to the end of the anchor line
@@ -119,6 +120,9 @@ def weave_file(src_path, spec_items):
         start, ob, cb = func_extent(lines, it['func'])
         if mode == 'prefunc':
             inserts.append((offs[start], seq, text))
+            continue
+        if mode == 'begin':
+            inserts.append((offs[ob + 1], seq, text))
             continue
         want = _norm(it['anchor'])
         hits = [i for i in range(start, cb + 1) if want and want in _norm(lines[i])]
